@@ -15,7 +15,7 @@ META = dict(
                 "return exactly that set, each member once; dag_to_icpdag must be its union graph (directed iff all members "
                 "agree) - which makes it the same for every member, gives the MEC/CPDAG for I = {} and {A} for I = all nodes, "
                 "and monotonicity in I.",
-    bounds=dict(quick="DAGs p <= 3 x all I; p = 4 x all I (543 x 16 = 8,688 pairs); chain graphs p <= 6 x all I with symbolic weights; pdag_to_icpdag on binary PDAGs p <= 3 x all I",
+    bounds=dict(quick="DAGs p <= 3 x all I; p = 4 x all I (543 x 16 = 8,688 pairs); chain graphs p <= 6 x all I with symbolic weights; pdag_to_icpdag on binary PDAGs p <= 3 x all I; wide: 3-node DAG patterns embedded at nodes 11,1,9 of a 12-node graph x |I| <= 2 (4-node patterns in the thorough tier)",
                 thorough="as quick plus p = 5 x |I| <= 1 (29,281 x 6) and pdag_to_icpdag on all PDAGs p = 4 x all I"),
     outside=["p = 5 with |I| >= 2; p > 5; chain graphs beyond p = 6"],
     stubs=["numpy -> symnp"],
@@ -45,8 +45,9 @@ def _cmp_matrix(cl, name, r, want, p):
         cl.append((name + ' is the essential graph of the I-equivalence class', all(got[i][j] == want[i][j] for i in range(p) for j in range(p))))
 
 
-def _targets(p, maxI):
-    return [set(S) for S in I.subsets(range(p)) if maxI is None or len(S) <= maxI]
+def _targets(p, maxI, pat=None):
+    nodes = range(p) if pat is None else I.universe(pat)
+    return [set(S) for S in I.subsets(nodes) if maxI is None or len(S) <= maxI]
 
 
 def h_dag(ctx):
@@ -58,7 +59,7 @@ def h_dag(ctx):
     B = I.arr(pat, 'int')
     log = CallLog('sempler.utils')
     cl = []
-    for T in _targets(p, ctx.params.get('maxI')):
+    for T in _targets(p, ctx.params.get('maxI'), pat):
         want = K.imec(pat, T)
         _cmp_stack(cl, 'imec(weighted, %s)' % sorted(T), log.call(u, 'imec', M, set(T)), want)
         _cmp_stack(cl, 'imec(0/1, %s, check_chain=False)' % sorted(T), log.call(u, 'imec', B, set(T), False), want)
@@ -83,12 +84,12 @@ def h_chain(ctx):
     M = I.arr(rows, 'float')
     log = CallLog('sempler.utils')
     cl = []
-    for T in _targets(p, None):
+    for T in _targets(p, None, pat):
         want = K.imec(pat, T)
         _cmp_stack(cl, 'imec(chain, %s)' % sorted(T), log.call(u, 'imec', M, set(T)), want)
     allone = all(bool(rows[i][i + 1] == 1) for i in range(p - 1))
     if allone:
-        for T in _targets(p, None):
+        for T in _targets(p, None, pat):
             _cmp_stack(cl, 'chain_graph_IMEC(%s)' % sorted(T), log.call(u, 'chain_graph_IMEC', M, set(T)), K.imec(pat, T))
     return PathResult('shortcut' if allone else 'general', cl, inputs=dict(calls=log.inputs(), A=rows, maxI=None), call='dag',
                       info=dict(chain=p, weights_all_one=allone), diff=(real_replay('sempler.utils'), log.symbolic()))
@@ -103,7 +104,7 @@ def h_pdag(ctx):
     E = K.extensions(pat)
     log = CallLog('sempler.utils')
     cl = []
-    for T in _targets(p, None):
+    for T in _targets(p, None, pat):
         r = log.call(u, 'pdag_to_icpdag', P, set(T))
         und_at_target = any(pat[t][j] and pat[j][t] for t in T for j in range(p))
         if und_at_target or not E:
@@ -129,6 +130,14 @@ def obligations(tier):
     for p in range(2, 7):
         ob.append(Obligation('chain_p%d' % p, h_chain, [dict(p=p)], "imec of the chain graph on %d nodes (symbolic weights) x every target set" % p,
                              expect=('shortcut', 'general'), weight=p * 3))
+    if tier == 'quick':
+        ob.append(Obligation('dag_wide_p12', h_dag, I.embed_cubes(12, [11, 1, 9], 3, dag=True, extra=dict(maxI=2)),
+                             "imec / dag_to_icpdag on every 3-node DAG pattern embedded at nodes 11, 1, 9 of a 12-node graph x target sets of size <= 2",
+                             expect=('checked',), weight=40))
+    else:
+        ob.append(Obligation('dag_wide_p12', h_dag, I.embed_cubes(12, [11, 1, 9, 0], 3, dag=True, extra=dict(maxI=2)),
+                             "imec / dag_to_icpdag on every 4-node DAG pattern embedded at nodes 11, 1, 9, 0 of a 12-node graph x target sets of size <= 2",
+                             expect=('checked',), weight=80))
     if tier == 'thorough':
         ob.append(Obligation('dag_p5_I1', h_dag, I.dag_pair_cubes(5, 4, dict(maxI=1)),
                              "imec / dag_to_icpdag on every DAG pattern on 5 nodes x |I| <= 1", expect=('checked',), weight=200, timeout_ms=120000))
@@ -150,7 +159,7 @@ def replay(rec):
             p = len(A)
             pat = tuple(tuple(1 if A[i][j] != 0 else 0 for j in range(p)) for i in range(p))
             B = numpy.array(pat, dtype=int)
-            for T in _targets(p, inp.get('maxI')):
+            for T in _targets(p, inp.get('maxI'), pat):
                 want = set(K.imec(pat, T))
                 for nm, args in (('imec(weighted)', (A.copy(), set(T))), ('imec(0/1, no shortcut)', (B.copy(), set(T), False))):
                     mats, ok01 = K.stack_to_set(u.imec(*args))
@@ -170,7 +179,7 @@ def replay(rec):
             p = len(P)
             pat = tuple(tuple(int(x) for x in r) for r in P.tolist())
             E = K.extensions(pat)
-            for T in _targets(p, None):
+            for T in _targets(p, None, pat):
                 und = any(pat[t][j] and pat[j][t] for t in T for j in range(p))
                 try:
                     got = u.pdag_to_icpdag(P.copy(), set(T))
